@@ -50,8 +50,8 @@ def run_dict(spec, how):
     return G.flatten(m.calculate())
 
 
-def run_files(spec, dirpath, book_order, sheet_order=None):
-    paths = G.write_files(spec, dirpath, sheet_order)
+def run_files(spec, dirpath, book_order, sheet_order=None, links=None):
+    paths = G.write_files(spec, dirpath, sheet_order, links=links)
     paths = [paths[i] for i in book_order]
     m = sut.ExcelModel().loads(*paths).finish()
     return G.flatten(m.calculate())
@@ -74,6 +74,13 @@ def presentations(spec, case):
                     so = {str(b): list(range(len(bk['sheets'])))[::-1] for b, bk in enumerate(spec['books'])}
                 out.append(('file:%s' % ''.join(map(str, bo)), run_files(spec, os.path.join(d, 'o%d' % i), bo, so)))
                 heavy and gc.collect()
+            if nb > 1 and case.get('links') is not None:
+                # references to other books in the numbered form xlsx files contain ([k]Sheet!A1 + external link parts,
+                # among them links to files that are not .xlsx books), both book orders
+                for i, bo in enumerate(borders):
+                    out.append(('file-idx:%d:%s' % (case['links'], ''.join(map(str, bo))),
+                                run_files(spec, os.path.join(d, 'x%d' % i), bo, None, links=case['links'])))
+                    heavy and gc.collect()
             if nb > 1:
                 # only one book is given to loads(); the others are reached by following its references in finish()
                 for first in range(nb):
@@ -143,10 +150,11 @@ def check_case(case):
 
 def _specs(tier):
     q = tier == 'quick'
-    return st.builds(lambda spec, orders, rev: {'k': 'spec', 'spec': spec, 'dict_orders': ['asis'] + orders, 'files': True, 'rev_sheets': rev},
+    return st.builds(lambda spec, orders, rev, links: {'k': 'spec', 'spec': spec, 'dict_orders': ['asis'] + orders, 'files': True, 'rev_sheets': rev,
+                                                        'links': links},
                      G.specs(tier, max_books=2 if q else 3, wholecols=False),
                      st.lists(st.sampled_from(ORDERS[1:]), min_size=1, max_size=2 if q else 3, unique=True),
-                     st.booleans())
+                     st.booleans(), st.one_of(st.none(), st.integers(0, 7)))
 
 
 def _has_wc(spec):
